@@ -1143,9 +1143,33 @@ def _fold_forwarders(work: Repo) -> int:
                     bound[k.arg] = k.value
             if not ok:
                 continue
+            def record_fields_from(callx: ast.AST) -> dict[str, str] | None:
+                """{field: P-param} when `callx` builds a plain record from P's own parameters"""
+                if not (isinstance(callx, ast.Call) and isinstance(callx.func, ast.Name) and callx.func.id in classes):
+                    return None
+                flds_ = plain_record(classes[callx.func.id])
+                if flds_ is None:
+                    return None
+                fm_: dict[str, str] = {}
+                for i_, a_ in enumerate(callx.args):
+                    if isinstance(a_, ast.Name) and a_.id in pparams and i_ < len(flds_):
+                        fm_[flds_[i_]] = a_.id
+                    else:
+                        return None
+                for k_ in callx.keywords:
+                    if k_.arg and isinstance(k_.value, ast.Name) and k_.value.id in pparams and k_.arg in flds_:
+                        fm_[k_.arg] = k_.value.id
+                    else:
+                        return None
+                return fm_ if set(fm_) == set(flds_) else None
+
             mapping: dict[str, tuple] = {}
             for fp, a in bound.items():
-                if isinstance(a, ast.Name) and a.id in recs:
+                inline_rec = record_fields_from(a)
+                if inline_rec is not None:
+                    mapping[fp] = ("r", inline_rec)
+                    used += list(inline_rec.values())
+                elif isinstance(a, ast.Name) and a.id in recs:
                     mapping[fp] = ("r", recs.pop(a.id))
                 elif isinstance(a, ast.Name) and a.id in pparams:
                     mapping[fp] = ("p", a.id)
